@@ -195,18 +195,25 @@ impl Sched {
         if g.mode == Mode::Off {
             return;
         }
-        // store prefix
+        // store prefix; a store is made known by the creation of its dispatch channel on a thread
+        // that announced it (hint_store).  Events of unknown stores / channels come from threads
+        // of an earlier run that are still winding down: they are not part of this run.
         let prefix = if store != 0 {
             if let Some(p) = g.stores.get(&store) {
                 p.clone()
-            } else {
-                let p = g.store_hint.get(&tid).cloned().unwrap_or_default();
+            } else if kind == "chan.new" && g.store_hint.contains_key(&tid) {
+                let p = g.store_hint.remove(&tid).unwrap_or_default();
                 g.stores.insert(store, p.clone());
                 p
+            } else {
+                return;
             }
         } else {
             String::new()
         };
+        if store == 0 && obj != 0 && kind != "chan.new" && !g.chan_names.contains_key(&obj) {
+            return;
+        }
         let parsed: Option<Value> = data.as_ref().and_then(|s| serde_json::from_str(s).ok());
         match kind {
             "chan.new" => {
@@ -299,7 +306,7 @@ impl Sched {
             }
             "chloop.exit" => (Class::Final, kind, json!({"ch": ch})),
             "chloop.recv" => (Class::Note, "chrecv", json!({"k": "chrecv", "n": n, "st": []})),
-            "iter.end" => {
+            "iter.end" | "iter.drop" => {
                 if n == 1 {
                     (Class::Gate, kind, json!(0))
                 } else {
